@@ -303,14 +303,26 @@ func (r *Request) transferError(err error) {
 func (r *Request) call(handlers Handlers, pkt requestPacket, alloc *allocator, orderID uint32, maxTxPacket uint32) responsePacket {
 	switch r.Method {
 	case "Get":
+		switch pkt.(type) {
+		case *sshFxpWritePacket, *sshFxpReaddirPacket:
+			return statusFromError(pkt.id(), errors.New("unexpected packet type for read handle"))
+		}
 		return fileget(handlers.FileGet, r, pkt, alloc, orderID, maxTxPacket)
 	case "Put":
+		switch pkt.(type) {
+		case *sshFxpReadPacket, *sshFxpReaddirPacket:
+			return statusFromError(pkt.id(), errors.New("unexpected packet type for write handle"))
+		}
 		return fileput(handlers.FilePut, r, pkt, alloc, orderID, maxTxPacket)
 	case "Open":
 		return fileputget(handlers.FilePut, r, pkt, alloc, orderID, maxTxPacket)
 	case "Setstat", "Rename", "Rmdir", "Mkdir", "Link", "Symlink", "Remove", "PosixRename", "StatVFS":
 		return filecmd(handlers.FileCmd, r, pkt)
 	case "List":
+		switch pkt.(type) {
+		case *sshFxpReadPacket, *sshFxpWritePacket:
+			return statusFromError(pkt.id(), errors.New("unexpected packet type for directory handle"))
+		}
 		return filelist(handlers.FileList, r, pkt)
 	case "Stat", "Lstat":
 		return filestat(handlers.FileList, r, pkt)
